@@ -243,33 +243,46 @@ Section Runner.
     else (Panic, d0).
 
   (* Runner::run_collect after planning: checkpointing engines only when a configuration is present
-     AND enabled, else the plain engines (which never touch the directory) *)
-  Inductive xmode := XSeq | XPar (partitions : nat).
+     AND enabled, else the plain engines (which never touch the directory).  In parallel mode BOTH
+     branches resolve the partition count the same way:
+       `partitions.or(suggested_parts).unwrap_or(self.default_partitions)`
+     suggested = the planner's hint (Plan::suggested_partitions), default = Runner::default_partitions;
+     both are inputs here. *)
+  Inductive xmode := XSeq | XPar (partitions : option nat).
 
-  Definition run_plain (mode : xmode) (term : tag) (chain : list node) : outcome (list val) :=
-    match mode with
-    | XSeq => exec_seq sh term chain
-    | XPar n => exec_par sh term chain n
+  Definition resolve_parts (suggested : option nat) (default : nat) (partitions : option nat) : nat :=
+    match partitions with
+    | Some n => n
+    | None => match suggested with Some n => n | None => default end
     end.
 
-  Definition run_collect (mode : xmode) (co : option cfg) (fs : option dir) (term : tag)
-             (chain : list node) : outcome (list val) * option dir :=
+  Definition run_plain (mode : xmode) (suggested : option nat) (default : nat) (term : tag)
+             (chain : list node) : outcome (list val) :=
+    match mode with
+    | XSeq => exec_seq sh term chain
+    | XPar p => exec_par sh term chain (resolve_parts suggested default p)
+    end.
+
+  Definition run_collect (mode : xmode) (suggested : option nat) (default : nat) (co : option cfg)
+             (fs : option dir) (term : tag) (chain : list node) : outcome (list val) * option dir :=
     match co with
     | Some c =>
         if c_enabled c then
           match mode with
           | XSeq => let '(r, d) := exec_seq_ckpt c fs term chain in (r, Some d)
-          | XPar n => let '(r, d) := exec_par_ckpt c fs term chain n in (r, Some d)
+          | XPar p =>
+              let '(r, d) := exec_par_ckpt c fs term chain (resolve_parts suggested default p) in
+              (r, Some d)
           end
-        else (run_plain mode term chain, fs)
-    | None => (run_plain mode term chain, fs)
+        else (run_plain mode suggested default term chain, fs)
+    | None => (run_plain mode suggested default term chain, fs)
     end.
 
   (* the pipeline id the run uses *)
-  Definition run_pid (mode : xmode) (chain : list node) : bytes :=
+  Definition run_pid (mode : xmode) (suggested : option nat) (default : nat) (chain : list node) : bytes :=
     match mode with
     | XSeq => pid_seq (List.length chain)
-    | XPar n => pid_par (List.length chain) n
+    | XPar p => pid_par (List.length chain) (resolve_parts suggested default p)
     end.
 End Runner.
 
